@@ -98,6 +98,45 @@ def _two_obs_evidence():
     return ob
 
 
+def _batched_likelihood(kind):
+    """route (c) with N observations held in ONE batched conditional: prior x prod_n likelihood_n, normalised, has natural
+    parameters  Lambda_x + sum_n M_n' L_n M_n  and  nu_x + sum_n M_n' L_n (y_n - b_n)  (N symbolic); its log-integral is the
+    log marginal likelihood"""
+    def ob(w):
+        xp = w.xp
+        Dx = "Dy" if kind.startswith("identity") else "Dx"
+        h = SP.gen_cond_handle(w, kind, "c", "N", "Dy", Dx)
+        prior, px = SP.gen_pdf(w, "x", 1, Dx)
+        Y = w.arr("Y", "N", "Dy")
+        lik = h.call("set_y", Y).product()                                                  # REAL: one factor per observation, reduced
+        prod = prior.multiply(lik, update_full=True)                                        # REAL
+        post = prod.get_density()                                                           # REAL
+        L = h.par["L"]
+        if h.identity:
+            Lsum = xp.sum(L, axis=0, keepdims=True)
+            nusum = xp.einsum("nij,nj->i", L, Y)[None]
+            quad = xp.einsum("ni,nij,nj->", Y, L, Y)
+        else:
+            yb = Y - h.par["b"]
+            Lsum = xp.einsum("nji,njk,nkl->il", h.par["M"], L, h.par["M"])[None]
+            nusum = xp.einsum("nji,njk,nk->i", h.par["M"], L, yb)[None]
+            quad = xp.einsum("ni,nij,nj->", yb, L, yb)
+        nux = xp.einsum("rij,rj->ri", px["L"], px["mu"])
+        Lpost = px["L"] + Lsum
+        w.equal("posterior/Lambda", post.Lambda, Lpost)
+        w.equal("posterior/nu", post.nu, nux + nusum)
+        w.equal("posterior/Sigma", post.Sigma, w.inv(Lpost))
+        # evidence: ln ∫ prior(x) prod_n N(y_n; M_n x + b_n, S_n) dx  (G1)
+        dx, dy = w.size(Dx), w.size("Dy")
+        c_prior = -(0.5 * xp.einsum("ri,ri->r", px["mu"], nux) + 0.5 * dx * w.log2pi() + 0.5 * px["ld"])
+        c_lik = -0.5 * quad - 0.5 * w.size("N") * dy * w.log2pi() - 0.5 * xp.sum(h.par["ld"], axis=0)
+        nu_p = nux + nusum
+        lnmass = (0.5 * xp.einsum("ri,rij,rj->r", nu_p, w.inv(Lpost), nu_p) + 0.5 * dx * w.log2pi() - 0.5 * w.logdet(Lpost)
+                  + c_prior + c_lik)
+        w.equal("evidence/log_integral(prior*prod_n lik_n)=ln p(y_1..y_N)", prod.log_integral(), lnmass)
+    return ob
+
+
 def _kalman_step():
     """one Kalman step: predict with p(x1|x0) (C08 contract), update with p(y1|x1) == conditioning the joint of (x1, y1)"""
     def ob(w):
@@ -127,6 +166,9 @@ def _register():
         order = {} if kind.startswith("identity") else {("Dx", "Dy"): True}
         REG.ob(f"one-step/{SP.COND_CLS[kind]}", sorts=["Dy", "N"] + ([] if kind.startswith("identity") else ["Dx"]) + (["Du"] if kind == "nn" else []),
                order=order, funcs=F, lemmas=LEM, axioms=["G1 Gaussian integral"])(_one_step(kind))
+    for kind in ("full", "identity", "nn"):
+        REG.ob(f"batched-likelihood/{SP.COND_CLS[kind]}", sorts=["N", "Dy"] + ([] if kind.startswith("identity") else ["Dx"]) + (["Du"] if kind == "nn" else []),
+               funcs=F + ["factor.ConjugateFactor.product"], lemmas=LEM, axioms=["G1 Gaussian integral"])(_batched_likelihood(kind))
     REG.ob("two-observations/order-and-product", sorts=["Dw", "Dy1", "Dy2", "N"], funcs=F, lemmas=LEM)(_two_obs())
     REG.ob("two-observations/evidence-telescopes", sorts=["Dw", "Dy1", "Dy2"], funcs=F, lemmas=LEM, axioms=["G1 Gaussian integral"])(_two_obs_evidence())
     REG.ob("kalman/one-step", sorts=["Dz", "Dz1", "Dy", "N"], order={("Dz1", "Dy"): True}, funcs=F, lemmas=LEM)(_kalman_step())
